@@ -3,9 +3,10 @@ EXTENDS DecM, TLC
 CONSTANT MaxLen
 \* A = 0, C = +1, D = -1, E = +2, g = continuation with 0 bits, i = continuation with bits 2, '!' junk
 Alphabet == {65, 67, 68, 69, 103, 105, COMMA, SEMI, 33}
-Strings == UNION {[1..n -> Alphabet] : n \in 0..MaxLen}
 VARIABLE s
-Init == s \in Strings
+\* (not a UNION of the function sets: TLC refuses to build a set of more than 10^6 elements, and
+\* enumerates a function set in an initial predicate without building it)
+Init == \E n \in 0..MaxLen : s \in [1..n -> Alphabet]
 Next == UNCHANGED s
 Spec == Init /\ [][Next]_s
 DesignOK ==
